@@ -338,7 +338,9 @@ class Program:
                 if not (root.kind == 'param' and root.args[0] == 1):
                     continue
                 # no other calls than deref helpers
-                others = [c for c in b.calls if c is not g and c.callee_name() not in ('deref', 'deref_mut', 'as_slice', 'as_mut_slice')]
+                # (a debug assertion on the index - a length read and a panic path - does not make it something else)
+                others = [c for c in b.calls if c is not g and c.callee_name() not in ('deref', 'deref_mut', 'as_slice', 'as_mut_slice', 'len')
+                          and c.point[0] in b.cfg.can_return]
                 if others:
                     continue
                 acc[fn.path] = {'fields': base.fields(), 'mut': g.callee_name() == 'get_unchecked_mut', 'fn': fn}
